@@ -7,12 +7,26 @@ import (
 	"fmt"
 	"os"
 	"strconv"
+	"strings"
 )
 
 type Case map[string]interface{}
 
 var out *bufio.Writer
 var caseID int
+
+// noImpl: generate the cases without running the implementation (used to name the case on which the
+// process died); flushEach: write every case as soon as it is done
+var noImpl, flushEach bool
+
+// ids of cases on which the process is known to die: they are not run again, their outcome is a crash
+var skipIDs = map[int]bool{}
+
+func fatalOutcome() Outcome {
+	return Outcome{"crash": "fatal error: the process dies on this case (stack overflow, concurrent map write, ...)"}
+}
+
+func skipThis() bool { return skipIDs[caseID+1] }
 
 func emit(c Case) {
 	caseID++
@@ -25,6 +39,9 @@ func emit(c Case) {
 	}
 	out.Write(b)
 	out.WriteByte('\n')
+	if flushEach {
+		out.Flush()
+	}
 }
 
 func main() {
@@ -33,7 +50,15 @@ func main() {
 	n := flag.Int("n", 100, "number of cases")
 	profile := flag.String("profile", "general", "history profile")
 	replay := flag.String("replay", "", "file of cases to re-run")
+	flag.BoolVar(&noImpl, "noimpl", false, "generate the cases without running the implementation")
+	flag.BoolVar(&flushEach, "flush", false, "flush after every case")
+	skip := flag.String("skipids", "", "comma separated ids of cases not to run (known to kill the process)")
 	flag.Parse()
+	for _, f := range strings.Split(*skip, ",") {
+		if n, err := strconv.Atoi(f); err == nil {
+			skipIDs[n] = true
+		}
+	}
 	out = bufio.NewWriterSize(os.Stdout, 1<<20)
 	defer out.Flush()
 	r := NewRng(*seed)
